@@ -208,7 +208,17 @@ def _nnf(f):
             return ('or', _nnf(mk_not(g[1])), _nnf(mk_not(g[2])))
         if g[0] == 'or':
             return ('and', _nnf(mk_not(g[1])), _nnf(mk_not(g[2])))
+        if g[0] == 'sel' and _is_bool(g[2]) and _is_bool(g[3]):
+            return ('or', ('and', g[1], _nnf(mk_not(g[2]))), ('and', mk_not(g[1]), _nnf(mk_not(g[3]))))
+    if isinstance(f, tuple) and f and f[0] == 'sel' and _is_bool(f[2]) and _is_bool(f[3]):
+        # a boolean `if c {a} else {b}` known to hold: (c ∧ a) ∨ (¬c ∧ b)
+        return ('or', ('and', f[1], _nnf(f[2])), ('and', mk_not(f[1]), _nnf(f[3])))
     return f
+
+
+def _is_bool(t):
+    from ..terms import BOOL_HEADS
+    return isinstance(t, tuple) and t and (t[0] in BOOL_HEADS or (t[0] == 'sel' and _is_bool(t[2]) and _is_bool(t[3])))
 
 
 def entails(facts, goal, depth=0):
@@ -228,6 +238,17 @@ def entails(facts, goal, depth=0):
                 g0 = simp(goal, {c: False})
                 return entails(list(facts) + [c], g1, depth + 1) and entails(list(facts) + [mk_not(c)], g0, depth + 1)
     facts = [_nnf(f) for f in facts if isinstance(f, tuple)]
+    # conjunctions are their conjuncts (so that a disjunction inside one can be split on)
+    flat = []
+    stack = list(reversed(facts))
+    while stack:
+        f = stack.pop()
+        if f[0] == 'and':
+            stack.append(_nnf(f[2]))
+            stack.append(_nnf(f[1]))
+        elif f not in flat:
+            flat.append(f)
+    facts = flat
     if depth < 4:
         # exact semantics of saturating subtraction as a case split: (a ≥ b ∧ r = a − b) ∨ (a < b ∧ r = 0)
         sat = []
@@ -285,54 +306,125 @@ def sel_leaves(t, conds=()):
 
 
 def loop_invariants(it, lp):
-    """Houdini-style: candidates v ≤ B for carried integer v and loop-invariant B it is compared with;
-    keep those that hold on entry and are preserved by the back edge."""
-    ints = [(r, p, fv, iv) for r, p, fv, iv in lp.carried if isinstance(fv, tuple) and fv[0] == 'sym']
-    if not ints or lp.back is None:
+    """Houdini-style: candidates v ≤ B (and B ≤ v) for every loop cursor v — a carried integer, or the moving bound of a carried
+    slice view / iterator — and loop-invariant B it is compared with or starts from; keep those that hold on entry and are
+    preserved by the back edge."""
+    from ..models import _stream_cursors
+    from ..values import Stream, SliceRef
+    if lp.back is None:
         return []
-    cands = []
+    cursors = {}          # head symbol -> (initial term, [back terms])
+    for r, p, fv, iv in lp.carried:
+        pairs = []
+        if isinstance(fv, tuple) and fv and fv[0] == 'sym' and isinstance(iv, tuple):
+            pairs = [(iv, fv)]
+            kind = 'int'
+        elif isinstance(fv, (Stream, SliceRef)) and type(iv) is type(fv):
+            if not _stream_cursors(iv, fv, pairs):
+                continue
+            kind = 'leaf'
+        else:
+            continue
+        for init, head in pairs:
+            if not (isinstance(head, tuple) and head and head[0] == 'sym'):
+                continue
+            backs = []
+            for bs in lp.back_states:
+                try:
+                    bv = it.read(bs, r, p)
+                except Unsupported:
+                    backs = None
+                    break
+                if kind == 'int':
+                    backs.append((bs, bv))
+                else:
+                    adv = []
+                    if not _stream_cursors(fv, bv, adv):
+                        backs = None
+                        break
+                    nv = dict(adv).get(head, head)
+                    backs.append((bs, nv))
+            if backs is not None:
+                cursors[head] = (init, backs)
+    if not cursors:
+        return []
+    carried_syms = set(cursors)
     terms = []
     for s in lp.back_states + [x for ss in lp.exit_states.values() for x in ss]:
         terms += [l[0] for l in s.guard]
         terms += list(s.facts)
-    carried_syms = {fv for _, _, fv, _ in ints}
+    cands = []
     for t0 in terms:
         for x in subterms(t0):
-            if x[0] == 'icmp' and x[2] in carried_syms and not (set(subterms(x[3])) & carried_syms):
-                cands.append((x[2], x[3]))
-    # a cursor that only moves down stays below its initial value
-    for r, p, fv, iv in ints:
-        if isinstance(iv, tuple) and not (set(subterms(iv)) & carried_syms):
-            cands.append((fv, iv))
+            if x[0] == 'icmp':
+                if x[2] in carried_syms and not (set(subterms(x[3])) & carried_syms):
+                    cands.append(('le', x[2], x[3]))
+                    cands.append(('ge', x[2], x[3]))
+                if x[3] in carried_syms and not (set(subterms(x[2])) & carried_syms):
+                    cands.append(('le', x[3], x[2]))
+                    cands.append(('ge', x[3], x[2]))
+    # a cursor that only moves down stays below its initial value, one that only moves up stays above it
+    for v, (init, backs) in cursors.items():
+        if isinstance(init, tuple) and not (set(subterms(init)) & carried_syms):
+            cands.append(('le', v, init))
+            cands.append(('ge', v, init))
     cands = list(dict.fromkeys(cands))
     entry_facts = set(lp.entry_state.facts)
     inv = []
-    for v, B in cands:
-        r, p, fv, iv = [q for q in ints if q[2] == v][0]
-        if entails(entry_facts, ('icmp', 'le', iv, B)):
-            inv.append((v, B, (r, p)))
+    for op, v, B in cands:
+        init = cursors[v][0]
+        if isinstance(init, tuple) and entails(entry_facts, ('icmp', op, init, B)):
+            inv.append((op, v, B))
     changed = True
     while changed:
         changed = False
-        inv_facts = {('icmp', 'le', v, B) for v, B, _ in inv}
-        for (v, B, (r, p)) in list(inv):
+        inv_facts = {('icmp', op, v, B) for op, v, B in inv}
+        for (op, v, B) in list(inv):
             ok = True
-            for bs in lp.back_states:
-                nv = it.read(bs, r, p)
+            for bs, nv in cursors[v][1]:
                 base = set(bs.facts) | inv_facts
                 for l in bs.guard:
                     base.add(l[0] if l[1] else mk_not(l[0]))
+                if not isinstance(nv, tuple):
+                    ok = False
+                    break
                 for conds, leaf in sel_leaves(nv):
                     fs = set(base) | set(conds)
-                    if not entails(fs, ('icmp', 'le', leaf, B)):
+                    if not entails(fs, ('icmp', op, leaf, B)):
                         ok = False
                         break
                 if not ok:
                     break
             if not ok:
-                inv.remove((v, B, (r, p)))
+                inv.remove((op, v, B))
                 changed = True
-    return [('icmp', 'le', v, B) for v, B, _ in inv]
+    out = [('icmp', op, v, B) for op, v, B in inv]
+    # cursors that always move together keep their distance (`enumerate` counter and slice cursor, zipped iterators)
+    from ..terms import NF
+    nf = NF()
+    names = list(cursors)
+    for a_i in range(len(names)):
+        for b_i in range(a_i + 1, len(names)):
+            u, v = names[a_i], names[b_i]
+            (iu, bu), (iv_, bv) = cursors[u], cursors[v]
+            if not (isinstance(iu, tuple) and isinstance(iv_, tuple)) or len(bu) != len(bv) or not bu:
+                continue
+            d0 = nf(iu) - nf(iv_)
+            if not d0.is_const() or d0.const_value().denominator != 1:
+                continue
+            same = True
+            for (_s1, nu), (_s2, nv_) in zip(bu, bv):
+                if not (isinstance(nu, tuple) and isinstance(nv_, tuple)):
+                    same = False
+                    break
+                du, dv = nf(nu) - nf(u), nf(nv_) - nf(v)
+                if not (du.is_const() and dv.is_const() and du.const_value() == dv.const_value()):
+                    same = False
+                    break
+            if same:
+                k = int(d0.const_value())
+                out.append(('icmp', 'eq', u, it.iadd(v, ('ic', k)) if k else v))
+    return out
 
 
 # ---------------------------------------------------------------- the inventory
